@@ -246,8 +246,19 @@ Definition bbytes (b : buf) : bytes := rev_fast (rb b).
    ========================================================================================== *)
 Definition next_status (script : list Z) : Z * list Z :=
   match script with [] => (200, []) | s :: r => (s, r) end.
-(* xhttp.Client.DoTimeout: 200..202 is success, everything else an error *)
-Definition is_ok_status (st : Z) : bool := (200 <=? st) && (st <=? 202).
+(* xhttp.Client.DoTimeout: 200..202 is success, everything else an error; a 2xx answer is then handed
+   to the sink's response reader (ES reportESErrors when process_response is set, splunk
+   parseSplunkError, none for http), which may still reject it.  An answer of the script is
+   1000 * kind + status:  kind 0 is the plain body {"errors":false,"code":0} every reader accepts;
+   kinds 1..7 (status 200..202 only) are other bodies — an ODD kind stands for "the reader of this sink
+   ACCEPTS the body", an EVEN kind for "it REJECTS it" (err != nil with a 2xx status code).  Which
+   (sink, configuration, kind) combinations exist is the table [answer_ok] of the exchange glue. *)
+Definition answer_status (st : Z) : Z := st mod 1000.
+Definition answer_kind (st : Z) : Z := st / 1000.
+Definition is_ok_status (st : Z) : bool :=
+  (0 <=? st) && (st <? 8000)
+  && (200 <=? answer_status st) && (answer_status st <=? 202)
+  && ((answer_kind st =? 0) || Z.odd (answer_kind st)).
 
 Record sreq := mkReq { rq_l : Z; rq_r : Z; rq_body : bytes; rq_status : Z }.
 
@@ -601,6 +612,13 @@ Fixpoint run_batches (out : out_fn) (batches : list (list ev)) (prev : bytes) (s
       if ok then tagged ++ run_batches out bs p s else tagged
   end.
 
+(* The plugin driven through its public API (Start / Out): the plugin's own Batcher forms the batch and
+   the RetriableBatcher (retry = 1: three calls) offers it to out().  Batcher.work calls OutFn only when
+   the batch has an iterable (non-parent) event: a batch without one is committed without any request. *)
+Definition via_out (out : out_fn) : out_fn :=
+  fun batch prev script =>
+    if is_nil (deliverable batch) then Ok (mkAtt [] false 0 prev script) else out batch prev script.
+
 (* ==========================================================================================
    9. exchange glue
    ========================================================================================== *)
@@ -687,13 +705,29 @@ Definition sx_flat (a : res attempt) : sx :=
 (* which: 0 es | 1 file | 2 http | 3 kafka | 4 splunk | 5 gelf | 6 loki;  case = (cfg (batch ...) (status ...))
    (c19_entry reduces which modulo 16: the harness numbers its buffer-size / transport variants of a sink
    16*v + sink; the model is value-level, so every variant has the same model) *)
-Definition out_of_case (which : Z) (cfg : sx) : option out_fn :=
-  match which, cfg with
-  | 0, SL [SB op; SB fmt; vals; SB time; split] =>
+(* Start(): an empty index_values list becomes ["@time"] *)
+Definition es_default_vals (vs : list ival) : list ival := if is_nil vs then [ITime] else vs.
+
+(* es cfg = (#op #index_format (#value ...) #time split [process_response]); the sixth element (default:
+   true) only matters for the table of answers below *)
+Definition es_of_sx (cfg : sx) : option (es_cfg * bool) :=
+  match cfg with
+  | SL [SB op; SB fmt; vals; SB time; split] =>
       match as_list ival_of_sx vals, as_bool split with
-      | Some vs, Some sp => Some (es_out (mkEs op fmt vs time sp))
+      | Some vs, Some sp => Some (mkEs op fmt (es_default_vals vs) time sp, true)
       | _, _ => None
       end
+  | SL [SB op; SB fmt; vals; SB time; split; pr] =>
+      match as_list ival_of_sx vals, as_bool split, as_bool pr with
+      | Some vs, Some sp, Some p => Some (mkEs op fmt (es_default_vals vs) time sp, p)
+      | _, _, _ => None
+      end
+  | _ => None
+  end.
+
+Definition out_of_case (which : Z) (cfg : sx) : option out_fn :=
+  match which, cfg with
+  | 0, _ => match es_of_sx cfg with Some (c, _) => Some (es_out c) | None => None end
   | 1, SL [] => Some file_out
   | 2, SL [raw; split] =>
       match as_bool raw, as_bool split with
@@ -703,7 +737,7 @@ Definition out_of_case (which : Z) (cfg : sx) : option out_fn :=
   | 3, SL [SB dflt; usef; SZ bs] =>
       match as_bool usef with Some u => Some (kafka_out (mkK dflt u bs)) | None => None end
   | 4, _ => match splunk_cfg_of_sx cfg with Some c => Some (splunk_out c) | None => None end
-  | 5, SL [] => Some gelf_out
+  | 5, SL _ => Some gelf_out          (* gelf cfg: the field options, which only the oracle formatEvent reads *)
   | 6, SL [SB labels] => Some (loki_out labels)
   | _, _ => None
   end.
@@ -872,11 +906,54 @@ Fixpoint pred_all (which : Z) (cfg : sx) (ms : list (list ev * res attempt)) (os
   | _, _ => false
   end.
 
-Definition c19_sink_run (which : Z) (case obs : sx) : verdict :=
+(* ---- the table of answers: which (sink, configuration, answer) combinations exist ---------------
+   kind  body                                                   accepted by          rejected by
+    1    {"errors":true,"code":0,"items":[...]}  (odd: accepted) es, http, splunk
+    2/3  not JSON                                               3: es without         2: es with process_response,
+                                                                   process_response,     splunk
+                                                                   http
+    4/5  {"errors":true,"code":7,"items":[]}                     5: es, http           4: splunk (code > 0)
+    6/7  {"errors":true}                                        7: es, http           6: splunk (no code)
+   (reportESErrors only fails on a body that does not decode; parseSplunkError fails on a body that does
+   not decode, has no "code", or a positive one; http has no reader.)  Kinds go with 200..202 only; the
+   other sinks (file, kafka, gelf, loki) take plain answers. *)
+Definition answer_ok (which : Z) (cfg : sx) (st : Z) : bool :=
+  let k := answer_kind st in
+  if (0 <=? st) && (st <? 1000) then true
+  else if (st <? 0) || (8000 <=? st) then false
+  else if negb ((200 <=? answer_status st) && (answer_status st <=? 202)) then false
+  else
+    match which with
+    | 0 => match es_of_sx cfg with
+           | Some (_, pr) => (k =? 1) || (k =? 5) || (k =? 7) || (if pr then k =? 2 else k =? 3)
+           | None => false
+           end
+    | 2 => (k =? 1) || (k =? 3) || (k =? 5) || (k =? 7)
+    | 4 => (k =? 1) || (k =? 2) || (k =? 4) || (k =? 6)
+    | _ => false
+    end.
+
+(* which 10..15 = the sink 0..5 driven through the plugin's public API (its own batcher): [via_out];
+   requests are observed one per attempt, so split_batch configurations are outside this form *)
+Definition is_via (which : Z) : bool := (10 <=? which) && (which <=? 15).
+Definition base_sink (which : Z) : Z := if is_via which then which - 10 else which.
+Definition via_cfg_ok (which : Z) (cfg : sx) : bool :=
+  match which, cfg with
+  | 10, _ => match es_of_sx cfg with Some (c, _) => negb (es_split c) | None => false end
+  | 12, SL [_; split] => match as_bool split with Some sp => negb sp | None => false end
+  | 13, _ => false                      (* kafka's Start dials the brokers *)
+  | _, _ => true
+  end.
+
+Definition c19_sink_run (which0 : Z) (case obs : sx) : verdict :=
+  let which := base_sink which0 in
   match case with
   | SL [cfg; bs; sc] =>
       match out_of_case which cfg, batches_of_sx bs, as_list as_Z sc with
-      | Some out, Some batches, Some script =>
+      | Some out0, Some batches, Some script =>
+          if negb (forallb (answer_ok which cfg) script) then BadCase
+          else if is_via which0 && negb (via_cfg_ok which0 cfg) then BadCase else
+          let out := if is_via which0 then via_out out0 else out0 in
           let ms := run_batches out batches [] script in
           let m := SL (map (fun ba => sx_flat (snd ba)) ms) in
           let p := match obs with SL os => pred_all which cfg ms os | _ => false end in
